@@ -2,6 +2,7 @@ package eval
 
 import (
 	"bytes"
+	"fmt"
 	"math"
 	"slices"
 	"strings"
@@ -188,7 +189,19 @@ func (s *State) evalPostfixExpression(node *ast.PostfixExpression) object.Object
 // Doesn't unwrap return - return bubbles up.
 // Initially this was the one to use internally recursively, except for when evaluating a function
 // but now it's less clear because of the need to unwrap references too. TODO: fix/clarify.
-func (s *State) evalInternal(node any) object.Object { //nolint:funlen,gocognit,gocyclo // quite a lot of cases.
+func (s *State) evalInternal(node any) object.Object {
+	// Eval() only counts function call levels; blocks, literals and operands nested inside each level
+	// also consume Go stack, so bound the total nesting too (instead of a fatal Go stack overflow).
+	if s.nesting > MaxNesting {
+		panic(fmt.Sprintf("max depth %d reached", MaxNesting))
+	}
+	s.nesting++
+	result := s.evalNode(node)
+	s.nesting--
+	return result
+}
+
+func (s *State) evalNode(node any) object.Object { //nolint:funlen,gocognit,gocyclo // quite a lot of cases.
 	if s.Context != nil && s.Context.Err() != nil {
 		return s.Error(s.Context.Err())
 	}
